@@ -256,7 +256,7 @@ pub fn audit(prop: &str) -> serde_json::Value {
             "3 comparisons at equality": "CLOSED: add_segment id at / above next_segment_id (MMADD), checkpoint last_segment_id = / above next-1 (covering_checkpoint), segments_after at max_timestamp -1/0/+1, should_checkpoint at min_segments -1/0/+1 and at timestamp + interval -1/0/+1, recovery's `id > last` by covered segments, WAL truncate_before at a stamp -1/0/+1. OPEN: ties in min_timestamp between segments occur by duplication, not targeted",
             "4 configuration": "CLOSED: CheckpointConfig.interval / min_segments generated incl. 0, Duration::MAX, 2^64+384 ms (as u64 truncation modelled). compression_enabled both values (feature not built: behaviour-neutral)",
             "5 capacity thresholds": "OPEN: u64 ids / versions near overflow are not generated (Nat in the model); {:08} id formatting beyond 8 digits",
-            "6 fault kinds": "CLOSED: every get of a recovery fails / returns empty / truncated / flipped bodies (recover_under_read_faults), missing and torn segments, torn checkpoint; OPEN: WAL file-level faults are C09/C10's",
+            "6 fault kinds": "CLOSED (s4: the same faults on recover_with_progress — the production start-up path; round-6 seed 'recover_with_progress skips validate()' was missed before): every get of a recovery fails / returns empty / truncated / flipped bodies (recover_under_read_faults), missing and torn segments, torn checkpoint; OPEN: WAL file-level faults are C09/C10's",
             "7 history shapes": "CLOSED: second recovery, second application, checkpoint before first flush, covered segments, WAL that went through truncate_before with interleaved stamps (middle file deleted: hole in the sequence) — round-5 seed C11-wal-replay-stops-at-sequence-hole; restart on LocalFs (c12fs)",
             "8 node-global state": "CLOSED: 16 shard clocks, per-shard split of recovered keys (router independent: theorem), hwm across segments",
             "9 observations": "CLOSED: deltas in order, checkpoint map, fold, applied node state (snapshot + GET/HGETALL), manifest fields incl. version / next / inv, recover_with_progress stats vs recover",
@@ -269,10 +269,10 @@ pub fn audit(prop: &str) -> serde_json::Value {
             "3 comparisons at equality": "CLOSED: buffer_size >= max_size_bytes / backpressure_threshold_bytes (key length aimed at limit-1 / limit / limit+1), len >= max_deltas, has_elapsed with the clock advanced to interval-1 / interval / interval+1 ms incl. sub-millisecond intervals; mailbox length = capacity (10000 queued, the next try_send dropped)",
             "4 configuration": "CLOSED: all four WriteBufferConfig fields generated incl. 0 / 1 / usize::MAX / Duration::ZERO / Duration::MAX; StreamingConfig.compaction.* copied into the worker's config checked field by field (ACOMPACT); compression_enabled both values (feature not built: behaviour-neutral). OPEN: in the real pipeline only flush_interval 0 / 'never' are deterministic (real-time Instant in the bridge), the other intervals are tied through the step functions on the virtual clock",
             "5 capacity thresholds": "CLOSED: PERSISTENCE_CHANNEL_CAPACITY read from the source, compared with the model (XCAP) and crossed by a generated case. OPEN: usize overflow of buffer_size (checked_add panic) unreachable",
-            "6 fault kinds": "CLOSED: error without effect and error after a torn object on every put (segment, temp manifest), get / rename / delete errors, read corruption kinds, death at every call; start_workers with an unreadable manifest; failed flushes inside the actor (retried by the next trigger, kept at shutdown). OPEN: LocalFs-specific errno classes (permission, ENOSPC) are not injected; power loss (no fsync in LocalFs put) is outside the property (process death)",
-            "7 history shapes": "CLOSED: restart on every crash image that holds an orphan, restart of the worker pipeline on LocalFs, sends after shutdown, last batch left in the sink at shutdown, emptied-then-refilled buffer after failed flushes",
+            "6 fault kinds": "CLOSED (s4: a SLOW store call — 1 ms .. 10 min of virtual time inside a flush, nothing fails: stall_case, oracle C12:workers:update-lost-by-slow-store; round-6 seed flush-timeout): error without effect and error after a torn object on every put (segment, temp manifest), get / rename / delete errors, read corruption kinds, death at every call; start_workers with an unreadable manifest; failed flushes inside the actor (retried by the next trigger, kept at shutdown). OPEN: LocalFs-specific errno classes (permission, ENOSPC) are not injected; power loss (no fsync in LocalFs put) is outside the property (process death)",
+            "7 history shapes": "CLOSED (s4: 2-3 LIVES of the real start_workers pipeline — death at a store call / inside a put, clean shutdown, end of observation — each restarted with another configuration, compaction worker passes in and across lives; model M4c StreamNode, ops ALIFE / AHIST, oracle C12:lives:*): restart on every crash image that holds an orphan, restart of the worker pipeline on LocalFs, sends after shutdown, last batch left in the sink at shutdown, emptied-then-refilled buffer after failed flushes",
             "8 node-global state": "CLOSED: cached manifest vs store (reload per flush), shared temp-manifest name, the mailbox / sink shared by the three tasks. OPEN (stated): WriteBuffer's segment_counter restarts at 0 in a second incarnation and its segments are never listed by a manifest: recovery does not read that pipeline at all — only C12's third sentence applies to it",
-            "9 observations": "CLOSED: every field of the stored manifest (MAN / AMAN: version, replica id, next id, per segment id / count / size / min / max stamp, key derived from id), pending_count / pending_bytes after every push and flush, store-call count, recovered deltas, which updates are missing after shutdown",
+            "9 observations": "CLOSED (s4: the manifest BYTES vs model M4j — MJENC — and the reader's verdict on EVERY single-bit flip of them — MJFLIPS — plus ~70 grammar variants per case — MJDEC): every field of the stored manifest (MAN / AMAN: version, replica id, next id, per segment id / count / size / min / max stamp, key derived from id), pending_count / pending_bytes after every push and flush, store-call count, recovered deltas, which updates are missing after shutdown",
             "10 finding absorption": "CLOSED: the defect found (fixed: ed7c4a2) was keyed by cause (WriteBuffer::flush returned Err and pending shrank), its witness is a corpus case that must pass; any other discarded accepted update = C12:write-buffer:accepted-update-discarded / C12:accepted-update-discarded (violations)",
             "11 harness fragility": "CLOSED: a process that cannot restart or recover on a crash image is a finding (was: expect → harness exit, round-5 seed C12-manifest-load-promotes-leftover-tmp), every case under a panic guard, scratch directories below the run's output directory and removed, empty-cell assertions, source-derived capacity / entry tables"
         }),
@@ -286,7 +286,7 @@ pub fn audit(prop: &str) -> serde_json::Value {
             "7 history shapes": "CLOSED: repeated compactions (compactions of compacted segments, 2..5 passes), compact and compact_if_needed mixed, failed flush in between, emptied-then-refilled manifest, worker passes separated by flushes; exactness oracle of history_exact after every pass",
             "8 node-global state": "CLOSED: manifest snapshot of the pass vs concurrent flush (all interleavings), the worker's compactor reused across passes",
             "9 observations": "CLOSED: recovered state before / after, CompactionResult fields, every manifest field after the pass (MAN), selection rule oracle",
-            "10 finding absorption": "CLOSED: flush-race findings keyed by cause — the listed signatures require OVERLAPPING manifest read-modify-write sections (from task-tagged store-call logs); a violating schedule with serialized sections is a new violation (round-5 seed C13-compactor-sweeps-orphans…); tombstone-GC findings keyed by where the older value lives",
+            "10 finding absorption": "CLOSED (s4: tombstone-gc findings require the key in a listed segment OUTSIDE the pass, else C13:tombstone-gc:key-not-outside-the-pass:*; a pass that took every listed segment and changed the visible state = C13:full-pass:visible-state-differs, proved impossible: compaction_preserves_visible_full_pass): flush-race findings keyed by cause — the listed signatures require OVERLAPPING manifest read-modify-write sections (from task-tagged store-call logs); a violating schedule with serialized sections is a new violation (round-5 seed C13-compactor-sweeps-orphans…); tombstone-GC findings keyed by where the older value lives",
             "11 harness fragility": "CLOSED: corpus and every generated case under a panic guard, list / exists / head are scheduling points of the gated store, empty-cell assertions"
         }),
         _ => json!(null),
